@@ -172,7 +172,7 @@ theorem completes_of {fuel : Nat} {s : St} {pre : List NCmd}
 theorem execPipeN_cons (fuel : Nat) (s : St) (c : NCmd) (rest : List NCmd) (final : Nat)
     (h : (execN fuel (s.push .subshell) c).2 ≠ .outOfFuel) :
     execPipeN (fuel + 1) s (c :: rest) final =
-      execPipeN fuel { s with trace := ((execN fuel (s.push .subshell) c).1.applyResult (execN fuel (s.push .subshell) c).2).trace } rest
+      execPipeN fuel { s with trace := ((execN fuel (s.push .subshell) c).1.applyResult (execN fuel (s.push .subshell) c).2).trace, pending := ((execN fuel (s.push .subshell) c).1.applyResult (execN fuel (s.push .subshell) c).2).pending } rest
         (if ((execN fuel (s.push .subshell) c).1.applyResult (execN fuel (s.push .subshell) c).2).status ≠ 0 ∨ !s.pipefail
          then ((execN fuel (s.push .subshell) c).1.applyResult (execN fuel (s.push .subshell) c).2).status else final) := by
   simp only [execPipeN]
